@@ -195,10 +195,6 @@ func (b *cfgBuilder) notePureBool(s ast.Stmt) {
 	if !ok || !pureBoolExpr(as.Rhs[0]) {
 		return
 	}
-	switch unparen(as.Rhs[0]).(type) {
-	case *ast.Ident, *ast.SelectorExpr:
-		return
-	}
 	if t := b.p.TypeOf(as.Rhs[0]); t == nil {
 		return
 	} else if bt, isB := t.Underlying().(*types.Basic); !isB || bt.Info()&types.IsBoolean == 0 {
